@@ -736,6 +736,12 @@ class SegmentWriter(IndexWriter):
 
         perdocwriter.start_doc(docnum)
         try:
+            # First analyze every field of the document without touching the
+            # posting pool or the per-document writer, so that a document
+            # that is rejected half way (e.g. a value out of a field's range)
+            # leaves nothing behind for the next document, which gets the
+            # same document number
+            prepared = []
             for fieldname in fieldnames:
                 value = fields.get(fieldname)
                 if value is None:
@@ -743,6 +749,7 @@ class SegmentWriter(IndexWriter):
                 field = schema[fieldname]
 
                 length = 0
+                posts = []
                 if field.indexed:
                     # TODO: Method for adding progressive field values, ie
                     # setting start_pos/start_char?
@@ -752,20 +759,21 @@ class SegmentWriter(IndexWriter):
                     items = field.index(value)
                     # Only store the length if the field is marked scorable
                     scorable = field.scorable
-                    # Add the terms to the pool
                     for tbytes, freq, weight, vbytes in items:
                         weight *= fieldboost
                         if scorable:
                             length += freq
-                        add_post((fieldname, tbytes, docnum, weight, vbytes))
+                        posts.append((fieldname, tbytes, docnum, weight,
+                                      vbytes))
 
                 if field.separate_spelling():
                     spellfield = field.spelling_fieldname(fieldname)
                     for word in field.spellable_words(value):
                         word = utf8encode(word)[0]
                         # item = (fieldname, tbytes, docnum, weight, vbytes)
-                        add_post((spellfield, word, 0, 1, vbytes))
+                        posts.append((spellfield, word, 0, 1, vbytes))
 
+                vitems = None
                 vformat = field.vector
                 if vformat:
                     analyzer = field.analyzer
@@ -774,19 +782,32 @@ class SegmentWriter(IndexWriter):
                     # Remove unused frequency field from the tuple
                     vitems = sorted((text, weight, vbytes)
                                     for text, _, weight, vbytes in vitems)
-                    perdocwriter.add_vector_items(fieldname, field, vitems)
 
                 # Allow a custom value for stored field/column
                 customval = fields.get("_stored_%s" % fieldname, value)
-
-                # Add the stored value and length for this field to the per-
-                # document writer
                 sv = customval if field.stored else None
-                perdocwriter.add_field(fieldname, field, sv, length)
 
                 column = field.column_type
+                hascv = False
+                cv = None
                 if column and customval is not None:
                     cv = field.to_column_value(customval)
+                    hascv = True
+
+                prepared.append((fieldname, field, posts, vitems, sv, length,
+                                 column, hascv, cv))
+
+            # Nothing was rejected: add the terms to the pool, and the vector,
+            # stored value, length and column value of each field to the per-
+            # document writer
+            for (fieldname, field, posts, vitems, sv, length, column, hascv,
+                 cv) in prepared:
+                for post in posts:
+                    add_post(post)
+                if vitems is not None:
+                    perdocwriter.add_vector_items(fieldname, field, vitems)
+                perdocwriter.add_field(fieldname, field, sv, length)
+                if hascv:
                     perdocwriter.add_column_value(fieldname, column, cv)
         except Exception as ex:
             perdocwriter.cancel_doc()
